@@ -1,4 +1,5 @@
 import Asts.Spec.Sync
+import Asts.Spec.Glue2
 import Asts.Driver.Reconcile
 namespace Asts.Driver
 open Asts
@@ -111,31 +112,6 @@ def syTag (c : SyCase) (o : SyncOut) : String :=
     (if o.status.isSome then "+status" else "") ++
     (if !c.plan.isEmpty then "+faulted" else "")
 
-/-- the pod-control calls of the implementation's log as observed actions of the reconcile (what a recording pod control
-    would have seen): creates carry the revision label the harness recorded, deletes the identity of the cached pod they name,
-    a burst of retried updates counts once -/
-def podActs (i : SyncIn) (log : List String) (creates : List String) : List OAct :=
-  let ordOf (n : String) : Int :=
-    match i.pods.find? (·.name == n) with
-    | some c => c.pod.ord
-    | none => (((List.range 256).map Int.ofNat).find? (fun o => canonicalName i.setName o == n)).getD (-1)
-  let revOf (n : String) (k : Nat) : String :=
-    -- k-th create of that name
-    let hits := creates.filterMap (fun t => match t.splitOn "@" with | [nm, rv] => if nm == n then some rv else none | _ => none)
-    hits.getD k ""
-  let rec go (seen : List String) (prev : Option String) : List String → List OAct
-    | [] => []
-    | e :: rest =>
-      match e.splitOn ":" with
-      | ["create", "pod", n] => .create (ordOf n) (revOf n ((seen.filter (· == e)).length)) :: go (e :: seen) (some e) rest
-      | ["delete", "pod", n] =>
-        -- after a create of the same name in this sync the delete targets the object just built, not the cached pod
-        let fresh := seen.contains s!"create:pod:{n}"
-        .delete (ordOf n) (if fresh then none else (i.pods.find? (·.name == n)).map (·.pod.id)) :: go (e :: seen) (some e) rest
-      | ["update", "pod", n] => if prev == some e then go (e :: seen) (some e) rest else .update (ordOf n) :: go (e :: seen) (some e) rest
-      | _ => go seen prev rest
-  go [] none log
-
 def monitorSync (c : SyCase) (obs : String) : String :=
   let o := parseSyncObs obs
   let i := c.i
@@ -151,11 +127,9 @@ def monitorSync (c : SyCase) (obs : String) : String :=
     ("C01.creates", !reached || C01creates v acts),
     ("C03.justified", !reached || C03 v m.upd pods acts (o.out == "ok")),
     ("C04.vacant", !reached || !wf || C04 v pods acts),
-    ("C04.removed", (annotate c.plan o.log).all (fun (e, idx, _) =>
-        !(e.verb == "create" && e.res == "pod") ||
-        !(annotate c.plan o.log).any (fun (g, j, k) => g.verb == "delete" && g.res == "pod" && g.name == e.name && j < idx && k.isSome))),
+    ("C04.removed", C04removedSync c.plan o.log),
     -- the completion rule, judged on the status a whole sync wrote and on the calls of the real pod control
-    ("C12.completion", !reached || (match o.status with | some st => C12complete m.cur m.upd pods acts st | none => true)),
+    ("C12.completion", C12completionSync i m o (csv (fieldD obs "creates") ",")),
     ("C02.cache", C10cache o),
     ("C16.requeued", C09reported i c.plan o),
     ("C05.ordered", !reached || v.parallel || !wf || C05 v pods acts),
@@ -177,12 +151,10 @@ def monitorSync (c : SyCase) (obs : String) : String :=
     ("C11.freshdeleting", C11freshDeleting i o),
     -- adoption by ANY verb: when adoption is not allowed (the set is gone, re-created or being deleted in the API, or deleting
     -- in the cache) no revision that was not the set's own ends up controlled by it, whichever call did it
-    ("C11.revowner", (freshOk i.fresh && !i.view.deleting) ||
-        i.store.all (fun r => r.owner == .self || o.revs.all (fun d => d.name != r.name || d.owner != .self))),
+    ("C11.revowner", C11revowner i o),
     -- migration: after a successful sync of a live, confirmed set every orphan revision it can see (selector labels or its
     -- upgrade marker) that still exists is controlled by it
-    ("C18.adopted", o.out != "ok" || i.paused || !i.selectorOk || i.view.deleting || !freshOk i.fresh || !c.plan.isEmpty ||
-        i.store.all (fun r => !(r.owner == .none && (r.selMatch || r.marker)) || o.revs.all (fun d => d.name != r.name || d.owner == .self))),
+    ("C18.adopted", C18adopted i c.plan o),
     ("C10.set", C10set o),
     ("C10.cache", C10cache o),
     ("C13.history", C13 i c.plan o),
